@@ -19,7 +19,7 @@ import itertools
 import os
 import random
 
-from .. import project, scenario, schemas, textgen
+from .. import loadgen, project, scenario, schemas, textgen
 from . import c14
 
 META = list("<>/%#()$") + [" ", "\t", "=", "+", "*", ":", "\\", "?", "\x00", "\x7f", "\u2028", "é"]
@@ -99,6 +99,15 @@ def compare(ws, sch, rec, item, emit):
     if got["r"] == "err" and got["kind"].startswith("internal:"):
         return {"clause": "internal-error", "observed": got,
                 "class": {"clause": "internal-error", "exception": got["kind"][9:], "shape": item["meta"].get("shape")}}
+    if (len(item["files"]) == 1 or item["meta"].get("shape") == "include-unopenable") and not item["opts"]:
+        # the same text from a file object that has no URL (references then resolve against the working
+        # directory; whatever comes of that, it is a configuration or a configuration error)
+        text = "".join(l + "\n" for l in item["files"][item["main"]])
+        got2, _ = loadgen.load_text(sch, text, rec=rec)
+        if got2["r"] == "err" and got2["kind"].startswith("internal:"):
+            return {"clause": "internal-error", "observed": got2, "entry": "loadConfigFile without a URL",
+                    "class": {"clause": "internal-error", "exception": got2["kind"][9:],
+                              "shape": item["meta"].get("shape"), "entry": "no-url"}}
     if got["r"] != emit["o"]["r"]:
         return {"_count_only": True}
     return None
@@ -211,7 +220,10 @@ def run(chk):
                "file:", "file:///", ":", "a:", "1:2", "a\x00b.conf", "file:///a\x00b", "\x7f", "é ü.conf", "ftp://",
                "http://", "http:", "data:;base64,%%%", "data:", "?", "??x=1", "c:/x.conf", "file://%zz/x",
                "package:", "package:x", "package:nosuchpkg_zcv:f.conf", "package::f.conf", "package:os:nosuch.conf",
-               "package:os.path:x", "package:zcv:nosuch.conf", "PACKAGE:x:y"]
+               "package:os.path:x", "package:zcv:nosuch.conf", "PACKAGE:x:y",
+               # bracketed hosts and ports that urllib refuses before it ever connects
+               "http://[::1#frag", "http://[::1", "http://[::1]:x/", "http://a]b/", "//[x", "http://h:99999999999/",
+               "https://[", "ftp://[::1#f"]
     for arg in BAD_INC:
         for where in (0, 1):
             files = {"d/main.conf": ["# main", "%include " + arg] if where == 0 else ["%include inner.conf"],
